@@ -4,6 +4,7 @@ import EaselModel.Dist.FloatInst
 import EaselModel.Generated.Dist
 import EaselModel.Dist.Mix
 import EaselModel.Dist.Bisect
+import EaselModel.Dist.BisectCarrier
 /-! Line-protocol driver for the C10 model: runs the TRANSLATED functions at `Float` — since round 3 including the
     mixtures (`esl_hxp_*`, `esl_mixgev_*`, `esl_vec_DLogSum/DMax/DMin`), the four bracketing + bisection inverses (fuel
     `Bisect.defaultFuel` per loop; `hang` = exhausted) and the generic-API wrappers.  Hand-modelled remain: the special
@@ -11,7 +12,9 @@ import EaselModel.Dist.Bisect
     `f fn=<name> a=<bits>,<bits>,…`            → `ok <bits>`
     `f2 fn=<g>,<f> a=<x>,<params…>`             → `ok <bits of g(f(x,params),params)>`
     `sample fn=<name> seed=<n> k=<draws> a=…`  → `ok <bits>,…` (k successive samples from a fresh MT19937 generator)
-    `vec fn=<DMax|DMin|DLogSum> v=<bits>,…`     → `ok <bits>` (the translated `esl_vec_D*` on `v`, `n = |v|`) -/
+    `vec fn=<DMax|DMin|DLogSum> v=<bits>,…`     → `ok <bits>` (the translated `esl_vec_D*` on `v`, `n = |v|`)
+    `bracketlim mu=<bits> q=<bits>`             → `ok <k>,<x2>,<absorb>,<r>`: `BisectCarrier.reachInf`, the point reached, carrier
+                                                   fact (A) there, and `esl_hxp_invcdf 1.0 {mu, q, λ=1}` — all at `Float` -/
 open EaselModel EaselModel.Proto EaselModel.Random EaselModel.Dist
 
 def hex64 (x : UInt64) : String :=
@@ -89,7 +92,8 @@ def mixEval (ws : List String) (fn : String) (x : Float) : Option (Option Float)
       | _ => none
   | _ => none
 
-/-- `esl_hxp_Sample` / `esl_mixgev_Sample`: `k = DChoose(r, q)`, then the component's `Sample(r, …)` -/
+/-- `esl_hxp_Sample` / `esl_mixgev_Sample` on the real generator: `k = DChoose(r, q)` (hand model `Mix.dchoose`), the
+    positive uniform deviate `u`, then the TRANSLATED `esl_hxp_Sample u h k` / `esl_mixgev_Sample u g k` -/
 def mixSampleLoop (ws : List String) : Nat → Rng → List String → Option (List String)
   | 0, _, acc => some acc.reverse
   | n+1, r, acc =>
@@ -104,16 +108,9 @@ def mixSampleLoop (ws : List String) : Nat → Rng → List String → Option (L
         let v : Option Float :=
           match arg? ws "fam" with
           | some "hxp" =>
-            match argBits? ws "mu", argList? ws "l" with
-            | some mu, some l => (l[k]?).map fun lk => Gen.esl_exp_Sample u mu lk
-            | _, _ => none
+            (hxpOf ws).bind fun h => if k < h.K then some (Gen.esl_hxp_Sample u h k) else none
           | some "mixgev" =>
-            match argList? ws "mu", argList? ws "l", argList? ws "al" with
-            | some mu, some l, some al =>
-              match mu[k]?, l[k]?, al[k]? with
-              | some m, some lk, some ak => some (Gen.esl_gev_Sample u m lk ak)
-              | _, _, _ => none
-            | _, _, _ => none
+            (mixgevOf ws).bind fun g => if k < g.K then some (Gen.esl_mixgev_Sample u g k) else none
           | _ => none
         match v with
         | some v => mixSampleLoop ws n r2 (hex64 v.toBits :: acc)
@@ -172,6 +169,49 @@ def step (s : Unit) (line : String) : Unit × String :=
       | some (some v) => (s, s!"ok {hex64 v.toBits}")
       | some none => (s, "hang")
       | none => (s, "bad-op")
+    | _, _ => (s, "bad-op")
+  | "sampleof" :: _ =>
+    -- the TRANSLATED sampler applied to the primitive variate `u` (uniform / Gamma / Gaussian) the generator yields
+    match arg? ws "fn", argBits? ws "u", (arg? ws "a").bind parseBitsList with
+    | some fn, some u, some a =>
+      if fn == "esl_gam_Sample" then (s, "bad-op") else
+      match Gen.dispatch fn (u :: a) with
+      | some v => (s, s!"ok {hex64 v.toBits}")
+      | none => (s, "unmodelled")
+    | _, _, _ => (s, "bad-op")
+  | "mixsampleof" :: _ =>
+    match argNat? ws "k", argBits? ws "u" with
+    | some k, some u =>
+      match arg? ws "fam" with
+      | some "hxp" => match hxpOf ws with
+        | some h => if k < h.K then (s, s!"ok {hex64 (Gen.esl_hxp_Sample u h k).toBits}") else (s, "bad-op")
+        | none => (s, "bad-op")
+      | some "mixgev" => match mixgevOf ws with
+        | some g => if k < g.K then (s, s!"ok {hex64 (Gen.esl_mixgev_Sample u g k).toBits}") else (s, "bad-op")
+        | none => (s, "bad-op")
+      | _ => (s, "bad-op")
+    | _, _ => (s, "bad-op")
+  | "gamsample" :: _ =>
+    match argList? ws "t", (arg? ws "a").bind parseBitsList with
+    | some ts, some [mu, lambda, _tau] =>
+      match Mix.gamSample mu lambda ts with
+      | some v => (s, s!"ok {hex64 v.toBits}")
+      | none => (s, "hang")
+    | _, _ => (s, "bad-op")
+  | "bracketlim" :: _ =>
+    -- the carrier facts (R), (A) of `BisectCarrier.invcdfRightLim_above_sup` evaluated at binary64, and its conclusion
+    match argBits? ws "mu", argBits? ws "q" with
+    | some mu, some q =>
+      let fl := Bisect.defaultFuel
+      match BisectCarrier.reachInf mu (fl + 1) (mu + 1.0) with
+      | none => (s, "hang")
+      | some k =>
+        let x2 := BisectCarrier.tripled mu (k + 1) (mu + 1.0)
+        let absorb : Float := if x2 ≤ (mu + x2) / 2.0 then 1.0 else 0.0
+        let h : Gen.ESL_HYPEREXP Float := { mu := mu, K := 1, q := [q], lambda := [1.0], wrk := [0.0] }
+        match Gen.esl_hxp_invcdf (fl + 1) 1.0 h with
+        | none => (s, "hang")
+        | some r => (s, s!"ok {hex64 (Float.ofNat k).toBits},{hex64 x2.toBits},{hex64 absorb.toBits},{hex64 r.toBits}")
     | _, _ => (s, "bad-op")
   | "vec" :: _ =>
     match arg? ws "fn", argList? ws "v" with
